@@ -100,7 +100,9 @@ class Tracer:
             def __call__(self, **kw):
                 r = self.inner(**kw)
                 if tracer.cur is not None:
-                    tracer.cur['model'].append((tracer.cur['phase'], dict(kw), r))
+                    # (a copy of what was returned: the model may refill and hand out the same blob dictionary next time)
+                    rec = tuple(dict(x) if isinstance(x, dict) else x for x in r) if isinstance(r, tuple) else r
+                    tracer.cur['model'].append((tracer.cur['phase'], dict(kw), rec))
                 return r
         return M(model)
 
